@@ -20,6 +20,7 @@ def fault_variants(pid, base_cases, model_ok, rnd, per_history, select, tags):
             if d and len(stream["mismatch"]) < 20:
                 stream["mismatch"].append({"input": c.id, "diff": d[:5], "case": c.to_text(), "impl": "", "model": ""})
             trig[c.id] = sorted(b["F"])
+        aligned = mod is None or all(a["T"].get(i, []) == mod[c.id]["T"].get(i, []) for i in set(a["T"]) | set(mod[c.id]["T"]))
         # count occurrences over the whole case trace
         seen = {}
         sites = []
@@ -34,7 +35,7 @@ def fault_variants(pid, base_cases, model_ok, rnd, per_history, select, tags):
         if len(sites) > per_history:
             sites = rnd.sample(sites, per_history)
         for k, s in enumerate(sites):
-            v = t2.Case("%s!%d" % (c.id, k), c.cfg, c.inits, c.ops, faults=[s[:4]], meta={"parent": c.id, "fault_op": s[4]})
+            v = t2.Case("%s!%d" % (c.id, k), c.cfg, c.inits, c.ops, faults=[s[:4]], meta={"parent": c.id, "fault_op": s[4], "twin": not aligned})
             variants.append(v)
     return {"stream": stream, "triggers": trig}, variants
 
